@@ -177,6 +177,20 @@ reg("C13", "exploration",
     "sympy.integrate / simplify trusted for the closed forms; trigonometric fields only on "
     "rectangle and box where the integrals are elementary.", "DESIGN.md 3/C13")
 
+reg("C14", "exploration",
+    "bounded-exhaustive enumeration of vector-expression trees x all role assignments of the "
+    "created symbols (owns the id() order) x construction modes, judged by component expansion",
+    "All product-structure shapes with at most 3 product nodes (dot, cross, mixed, norm, scalar "
+    "times vector) over role leaves in every role pattern, plus every single (thorough: also "
+    "double) decoration of a leaf by sign / number / scalar multiple / sum / zero; every tree is "
+    "built with each of the k! assignments of the created VectorSymbols to its roles, auto-evaluated "
+    "and via evaluate=False + doit(); the result is interpreted in R^3 and compared with the "
+    "component expansion of the tree description by exact polynomial normal form. 40 derivative "
+    "cases over vector functions of t (first and second order) must terminate and equal the "
+    "component-wise derivative.",
+    "Trees beyond 3 product nodes rely on the small-scope hypothesis (rewrite rules fire on "
+    "operand shape); expressions with norms compared numerically at 40 digits.", "DESIGN.md 3/C14")
+
 
 def build() -> dict:
     props = [json.loads(l)["id"] for l in open(os.path.join(ROOT, "properties.jsonl"))]
